@@ -181,7 +181,7 @@ fn lit(v: &V) -> String {
     }
 }
 
-pub const N_FORMS: usize = 44;
+pub const N_FORMS: usize = 58;
 
 impl<'a> G<'a> {
     pub fn new(rng: &'a mut Rng, plan: Vec<Eff>, base: Eff) -> Self {
@@ -778,12 +778,320 @@ impl<'a> G<'a> {
                 );
                 (e, V::U)
             }
+            // ---------------- destructuring a LITERAL right-hand side: every component is an operand,
+            // also the ones a `_` ignores
+            44 | 45 | 46 | 47 | 48 | 49 => {
+                let nm = form_name(f);
+                let k = match f { 44 | 48 => 2 + self.rng.below(2), 45 => 3, _ => 2 };
+                let m = self.mask(k);
+                let mut pats: Vec<String> = vec![];
+                let mut comps: Vec<String> = vec![];
+                let mut named: Vec<String> = vec![];
+                let mut sum: i32 = 0;
+                for j in 0..k {
+                    // a named component is an int32; an ignored one may have any type (struct / enum fields are int32)
+                    let t = if m[j] || matches!(f, 46 | 47 | 49) { Ty::I } else { [Ty::I, Ty::B, Ty::S, Ty::U][self.rng.below(4)] };
+                    let pos = format!("{}.comp{}{}", nm, j, if m[j] { "" } else { "(_)" });
+                    let (c, v) = self.sub(t, d, None, &pos);
+                    comps.push(c);
+                    if m[j] {
+                        let x = self.fresh("dp");
+                        sum = sum.wrapping_add(Self::ii(&v));
+                        named.push(x.clone());
+                        pats.push(x);
+                    } else {
+                        pats.push("_".into());
+                    }
+                }
+                let (tail, vt) = self.sub(Ty::I, d, None, &format!("{}.body", nm));
+                named.push(tail);
+                let body = format!("({})", named.join(" + "));
+                let v = V::I(sum.wrapping_add(Self::ii(&vt)));
+                let e = match f {
+                    44 => self.blk_at(root, format!("let ({}) = ({}); ", pats.join(", "), comps.join(", ")), body, Ty::I),
+                    45 => self.blk_at(
+                        root,
+                        format!("let (({}, {}), {}) = (({}, {}), {}); ", pats[0], pats[1], pats[2], comps[0], comps[1], comps[2]),
+                        body,
+                        Ty::I,
+                    ),
+                    46 => self.blk_at(
+                        root,
+                        format!("let Sab {{ a: {}, b: {} }} = Sab {{ a: {}, b: {} }}; ", pats[0], pats[1], comps[0], comps[1]),
+                        body,
+                        Ty::I,
+                    ),
+                    47 => self.blk_at(root, format!("let One::Mk({}, {}) = One::Mk({}, {}); ", pats[0], pats[1], comps[0], comps[1]), body, Ty::I),
+                    48 => format!("(match ({}) {{ ({}) => {}, }})", comps.join(", "), pats.join(", "), body),
+                    _ => format!("(match Eabc::B({}, {}) {{ Eabc::B({}, {}) => {}, _ => 0, }})", comps[0], comps[1], pats[0], pats[1], body),
+                };
+                (e, v)
+            }
+            50 => {
+                // in a loop body, followed by the accumulator and counter updates
+                let n = 1 + self.rng.below(3);
+                let (cnt, acc) = (self.fresh("cnt"), self.fresh("acc"));
+                let m = self.mask(2);
+                let ((body, sum), evs, deadb) = self.capture(|g| {
+                    let mut pats = vec![];
+                    let mut comps = vec![];
+                    let mut named = vec!["0".to_string()];
+                    let mut sum = 0i32;
+                    for j in 0..2 {
+                        let pos = format!("destructure-in-loop.comp{}{}", j, if m[j] { "" } else { "(_)" });
+                        let (c, v) = g.sub(Ty::I, d, None, &pos);
+                        comps.push(c);
+                        if m[j] {
+                            let x = g.fresh("dp");
+                            sum = sum.wrapping_add(Self::ii(&v));
+                            named.push(x.clone());
+                            pats.push(x);
+                        } else {
+                            pats.push("_".to_string());
+                        }
+                    }
+                    (
+                        format!(
+                            "let ({}) = ({}); let _ = ref_set({acc}, ref_get({acc}) + {}); let _ = ref_set({cnt}, ref_get({cnt}) + 1); ",
+                            pats.join(", "),
+                            comps.join(", "),
+                            named.join(" + "),
+                            acc = acc,
+                            cnt = cnt
+                        ),
+                        sum,
+                    )
+                });
+                for _ in 0..n {
+                    self.replay(&evs, deadb);
+                }
+                let stmts = format!("let {cnt} = ref(0); let {acc} = ref(0); let _ = while ref_get({cnt}) < {n} {{ {body} }}; ", cnt = cnt, acc = acc, n = n, body = body);
+                let e = self.blk_at(root, stmts, format!("ref_get({})", acc), Ty::I);
+                (e, V::I(sum.wrapping_mul(n as i32)))
+            }
+            51 => {
+                // in a match arm block
+                let (s0, v0) = self.sub(Ty::I, d, None, "destructure-in-arm.scrutinee.ctor.arg0");
+                let m = self.mask(2);
+                let w = self.fresh("aw");
+                let mut pats = vec![];
+                let mut comps = vec![];
+                let mut named = vec![w.clone()];
+                let mut sum = Self::ii(&v0);
+                for j in 0..2 {
+                    let pos = format!("destructure-in-arm.comp{}{}", j, if m[j] { "" } else { "(_)" });
+                    let (c, v) = self.sub(Ty::I, d, None, &pos);
+                    comps.push(c);
+                    if m[j] {
+                        let x = self.fresh("dp");
+                        sum = sum.wrapping_add(Self::ii(&v));
+                        named.push(x.clone());
+                        pats.push(x);
+                    } else {
+                        pats.push("_".to_string());
+                    }
+                }
+                (
+                    format!(
+                        "(match Eabc::C({}) {{ Eabc::C({}) => {{ let ({}) = ({}); ({}) }}, _ => 0, }})",
+                        s0,
+                        w,
+                        pats.join(", "),
+                        comps.join(", "),
+                        named.join(" + ")
+                    ),
+                    V::I(sum),
+                )
+            }
+            52 => {
+                // the destructuring `let` is the last statement of a block
+                let (a, _) = self.sub(Ty::U, d, None, "destructure-last-stmt.before");
+                let m = self.mask(2);
+                let mut pats = vec![];
+                let mut comps = vec![];
+                for j in 0..2 {
+                    let t = [Ty::I, Ty::B, Ty::S, Ty::U][self.rng.below(4)];
+                    let pos = format!("destructure-last-stmt.comp{}{}", j, if m[j] { "" } else { "(_)" });
+                    let (c, _) = self.sub(t, d, None, &pos);
+                    comps.push(c);
+                    pats.push(if m[j] { self.fresh("dp") } else { "_".to_string() });
+                }
+                (format!("(if z == 0 {{ let _ = {}; let ({}) = ({}); }} else {{ () }})", a, pats.join(", "), comps.join(", ")), V::U)
+            }
+            // ---------------- `go` in every statement position: what follows it still runs
+            53 | 54 | 56 => {
+                let nm = form_name(f);
+                let n = 1 + self.rng.below(3);
+                let cnt = self.fresh("cnt");
+                let variant = self.rng.below(if f == 53 { 4 } else { 3 });
+                let (body, evs, deadb) = self.capture(|g| {
+                    let bump = format!("let _ = ref_set({c}, ref_get({c}) + 1); ", c = cnt);
+                    let mut go_stmt = |g: &mut Self, tag: &str, as_let: bool| {
+                        g.in_go += 1;
+                        let (gb, _) = g.sub(Ty::U, d, None, &format!("{}.go-body", nm));
+                        g.ev(Ev::Print(format!("spawned:{}", tag)));
+                        g.in_go -= 1;
+                        format!("{}go || {{ let _ = {}; string_println(\"spawned:{}\") }}; ", if as_let { "let _ = " } else { "" }, gb, tag)
+                    };
+                    match (f, variant) {
+                        // while body: go first / after the counter / last / bound by `let _`
+                        (53, 0) => {
+                            let g0 = go_stmt(g, "first", false);
+                            let (a, _) = g.sub(Ty::U, d, None, "go-in-while.after-go");
+                            format!("{}let _ = {}; {}", g0, a, bump)
+                        }
+                        (53, 1) => {
+                            let g0 = go_stmt(g, "middle", false);
+                            let (a, _) = g.sub(Ty::U, d, None, "go-in-while.after-go");
+                            format!("{}{}let _ = {}; ", bump, g0, a)
+                        }
+                        (53, 2) => {
+                            let (a, _) = g.sub(Ty::U, d, None, "go-in-while.before-go");
+                            let g0 = go_stmt(g, "last", false);
+                            format!("let _ = {}; {}{}", a, bump, g0)
+                        }
+                        (53, _) => {
+                            let g0 = go_stmt(g, "let", true);
+                            let (a, _) = g.sub(Ty::U, d, None, "go-in-while.after-go");
+                            format!("{}let _ = {}; {}", g0, a, bump)
+                        }
+                        // a branch / arm that is a statement of the loop body
+                        (54, 0) => {
+                            let g0 = go_stmt(g, "if", false);
+                            let (a, _) = g.sub(Ty::U, d, None, "go-in-branch-in-while.if.after-go");
+                            format!("{}if ref_get({c}) > 0 {{ {}let _ = {}; () }} else {{ () }}; ", bump, g0, a, c = cnt)
+                        }
+                        (54, 1) => {
+                            let g0 = go_stmt(g, "arm", false);
+                            let (a, _) = g.sub(Ty::U, d, None, "go-in-branch-in-while.arm.after-go");
+                            format!("{}let _ = match ref_get({c}) {{ 0 => (), _ => {{ {}{} }}, }}; ", bump, g0, a, c = cnt)
+                        }
+                        (54, _) => {
+                            // the branch is the tail of the body; the counter moves before it
+                            let g0 = go_stmt(g, "tail-if", false);
+                            let (a, _) = g.sub(Ty::U, d, None, "go-in-branch-in-while.tail-if.after-go");
+                            format!("{}if ref_get({c}) > 0 {{ {}{} }} else {{ () }}", bump, g0, a, c = cnt)
+                        }
+                        // nested loop: the inner loop's statements after `go`, then the outer ones
+                        (_, v) => {
+                            let inner = g.fresh("inn");
+                            let (ib, ievs, ideadb) = g.capture(|g| {
+                                let g0 = go_stmt(g, "inner", v == 2);
+                                let (a, _) = g.sub(Ty::U, d, None, "go-in-nested-loop.inner.after-go");
+                                format!("{}let _ = {}; let _ = ref_set({i}, ref_get({i}) + 1); ", g0, a, i = inner)
+                            });
+                            for _ in 0..2 {
+                                g.replay(&ievs, ideadb);
+                            }
+                            let (o, _) = g.sub(Ty::U, d, None, "go-in-nested-loop.outer.after-inner");
+                            if v == 0 {
+                                format!("let {i} = ref(0); let _ = while ref_get({i}) < 2 {{ {} }}; let _ = {}; {}", ib, o, bump, i = inner)
+                            } else {
+                                format!("{}let {i} = ref(0); let _ = while ref_get({i}) < 2 {{ {} }}; let _ = {}; ", bump, ib, o, i = inner)
+                            }
+                        }
+                    }
+                });
+                for _ in 0..n {
+                    self.replay(&evs, deadb);
+                }
+                let (after, _) = self.sub(Ty::U, d, None, &format!("{}.after-loop", nm));
+                let stmts = format!("let {c} = ref(0); let _ = while ref_get({c}) < {n} {{ {body} }}; ", c = cnt, n = n, body = body);
+                let e = self.blk_at(root, stmts, after, Ty::U);
+                (e, V::U)
+            }
+            55 => {
+                // closure body: go, then more statements; the closure is called twice
+                let cl = self.fresh("gcl");
+                let (body, evs, deadb) = self.capture(|g| {
+                    g.in_go += 1;
+                    let (gb, _) = g.sub(Ty::U, d, None, "go-in-closure.go-body");
+                    g.ev(Ev::Print("spawned:closure".into()));
+                    g.in_go -= 1;
+                    let (a, _) = g.sub(Ty::U, d, None, "go-in-closure.after-go");
+                    format!("go || {{ let _ = {}; string_println(\"spawned:closure\") }}; let _ = {}; cu", gb, a)
+                });
+                self.replay(&evs, deadb);
+                self.replay(&evs, deadb);
+                let (after, _) = self.sub(Ty::U, d, None, "go-in-closure.after-calls");
+                let e = self.blk_at(
+                    root,
+                    format!("let {cl} = |cu: int32| {{ {body} }}; let _ = {cl}(1); let _ = {cl}(2); ", cl = cl, body = body),
+                    after,
+                    Ty::U,
+                );
+                (e, V::U)
+            }
+            57 => {
+                // function level: go as the first / a middle / the last statement
+                let variant = self.rng.below(3);
+                let mut go_stmt = |g: &mut Self, tag: &str| {
+                    g.in_go += 1;
+                    let (gb, _) = g.sub(Ty::U, d, None, "go-fn-level.go-body");
+                    g.ev(Ev::Print(format!("spawned:{}", tag)));
+                    g.in_go -= 1;
+                    format!("go || {{ let _ = {}; string_println(\"spawned:{}\") }}", gb, tag)
+                };
+                match variant {
+                    0 => {
+                        let g0 = go_stmt(self, "first");
+                        let (a, _) = self.sub(Ty::U, d, None, "go-fn-level.after-go");
+                        let (b, _) = self.sub(Ty::U, d, None, "go-fn-level.last");
+                        (self.blk_at(root, format!("{}; let _ = {}; ", g0, a), b, Ty::U), V::U)
+                    }
+                    1 => {
+                        let (a, _) = self.sub(Ty::U, d, None, "go-fn-level.before-go");
+                        let g0 = go_stmt(self, "middle");
+                        let (b, _) = self.sub(Ty::U, d, None, "go-fn-level.last");
+                        (self.blk_at(root, format!("let _ = {}; {}; ", a, g0), b, Ty::U), V::U)
+                    }
+                    _ => {
+                        let (a, _) = self.sub(Ty::U, d, None, "go-fn-level.before-go");
+                        let g0 = go_stmt(self, "last");
+                        (self.blk_at(root, format!("let _ = {}; ", a), format!("({})", g0), Ty::U), V::U)
+                    }
+                }
+            }
             _ => {
-                // match whose arms are unit effects, scrutinee a nullary constructor
+                // (form 43) match whose arms are unit effects, scrutinee a nullary constructor
                 let which = self.rng.below(2);
                 let (a0, _) = self.branch(which == 0, |g| g.sub(Ty::U, d, None, "match-unit.arm0"));
                 let (a1, _) = self.branch(which == 1, |g| g.sub(Ty::U, d, None, "match-unit.default"));
                 (format!("(match {} {{ Eabc::A => {}, _ => {}, }})", if which == 0 { "Eabc::A" } else { "Eabc::C(1)" }, a0, a1), V::U)
+            }
+        }
+    }
+
+    /// which components of a destructuring pattern are named (`true`) and which are `_`; at least
+    /// one `_` three times out of four
+    fn mask(&mut self, k: usize) -> Vec<bool> {
+        let mut m: Vec<bool> = (0..k).map(|_| self.rng.chance(1, 2)).collect();
+        if m.iter().all(|b| *b) && self.rng.chance(3, 4) {
+            let j = self.rng.below(k);
+            m[j] = false;
+        }
+        m
+    }
+
+    /// generate something whose events happen later / several times: the events are taken out of
+    /// the trace and handed back, to be put where they belong with `replay`
+    fn capture<R>(&mut self, f: impl FnOnce(&mut Self) -> R) -> (R, [Vec<Ev>; 2], [bool; 2]) {
+        let mark: [usize; 2] = [self.exp[0].len(), self.exp[1].len()];
+        let dead0 = self.dead;
+        let r = f(self);
+        let evs: [Vec<Ev>; 2] = [self.exp[0].split_off(mark[0]), self.exp[1].split_off(mark[1])];
+        let deadb = self.dead;
+        self.dead = dead0;
+        (r, evs, deadb)
+    }
+    fn replay(&mut self, evs: &[Vec<Ev>; 2], deadb: [bool; 2]) {
+        for s in 0..2 {
+            if self.dead[s] {
+                continue;
+            }
+            self.exp[s].extend(evs[s].clone());
+            if deadb[s] {
+                self.dead[s] = true;
             }
         }
     }
@@ -799,7 +1107,7 @@ impl<'a> G<'a> {
 
 pub fn form_ty(f: usize) -> Ty {
     match f {
-        0..=23 => Ty::I,
+        0..=23 | 44..=51 => Ty::I,
         24..=34 => Ty::B,
         35..=37 => Ty::S,
         _ => Ty::U,
@@ -814,12 +1122,15 @@ pub fn form_name(f: usize) -> &'static str {
         "let-unused", "if", "if-operand", "match-enum", "match-int", "match-tuple-bool", "closure-call", "ref-roundtrip", "ref-set", "while",
         "string_len", "not", "cmp", "and-true", "and-false", "or-true", "or-false", "and-or", "and-nested-or", "and-var-rhs", "str-eq",
         "if-and-cond", "concat", "to_string", "ctor-args", "println", "go", "if-unit", "seq", "ref_set-args", "match-unit",
+        "let-tuple-lit", "let-tuple-lit-nested", "let-struct-lit", "let-enum-ctor", "match-tuple-lit", "match-ctor-lit", "destructure-in-loop",
+        "destructure-in-arm", "destructure-last-stmt", "go-in-while", "go-in-branch-in-while", "go-in-closure", "go-in-nested-loop", "go-fn-level",
     ][f]
 }
 
 const PRELUDE: &str = r#"struct Sab { a: int32, b: int32 }
 enum Eabc { A, B(int32, int32), C(int32) }
 enum Ess { P(string, string), Q }
+enum One { Mk(int32, int32) }
 fn p_i(l: string, v: int32) -> int32 { let _ = string_println(l); v }
 fn p_b(l: string, v: bool) -> bool { let _ = string_println(l); v }
 fn p_s(l: string, v: string) -> string { let _ = string_println(l); v }
@@ -1086,7 +1397,9 @@ pub fn main(args: &util::Args) {
     let mut stats = Stats::default();
     let places = [Place::LetThenShow, Place::Tail, Place::Discarded];
     for f in 0..N_FORMS {
-        let reps = if thorough { 4 } else { 1 };
+        // the destructuring / go-position forms draw their shape (which components are `_`, where the
+        // `go` stands) from the stream: more repetitions
+        let reps = if thorough { if f >= 44 { 12 } else { 4 } } else if f >= 44 { 4 } else { 1 };
         for rep in 0..reps {
         // how many holes does the form have at depth 0
         let holes = {
